@@ -222,3 +222,10 @@ PROPS['X02'] = dict(
     rule='mathext/util Min/Max/Clap of all ten integer types (values within +-2^30), typehelper.ToSlice, iohelper.AtToReader with arbitrary read sizes',
     assumptions=TRUST,
 )
+PROPS['X03'] = dict(
+    extra=True, trace=dict(module='Trace_TreeStr', cfg='Trace_TreeStr.cfg'), mc=dict(quick=[], thorough=[]), need_kinds=['tree'],
+    shards=dict(quick=1, thorough=1),
+    gen=dict(quick=[bfs('Gen_TreeStr', 'Gen_TreeStr.cfg', 'tree', shards=8)], thorough=[bfs('Gen_TreeStr', 'Gen_TreeStr.cfg', 'tree', shards=8)]),
+    rule='package tree: every tree of depth <= 2 with fan-out <= 2 over small id/info/leaf sets, enumerated by TLC (Gen_TreeStr), DepthFirst visit order and String rendering judged against TreeStr',
+    assumptions=TRUST,
+)
